@@ -19,7 +19,7 @@ from .c01 import _Case
 PROP = "C04"
 LEVEL = "exploration"
 RULE = (
-    "case = (date stratum >= 2015, population, non-empty target subset S of computable names incl. "
+    "case = (date stratum >= 2015 or one of the sampled strata of 2005-2014 with the screened node universe, population, non-empty target subset S of computable names incl. "
     "time-unit variants and automatic group sums, extra inert columns, debug, "
     "check_minimal_specification, DataFrame/dict input).  Non-trivial = S contains a derived "
     "name (unit variant / automatic sum) or at least two targets; distinct = digest of (S, options, population)."
